@@ -258,12 +258,16 @@ def impl_clump(case):
         if not rows:
             continue
         stats[kind] = _dir / f"stats_{kind}.txt"
+        txt = ("#" if case["order"][0] % 2 else "") + "\t".join(nm(c) for c in case["cols"]) + "\n"
+        for j in rows:
+            v = case["variants"][j]
+            row = {"SNP": v["id"], "CHR": v["chrom"], "POS": str(v["pos"]), "P": v["p"], "junk": "x"}
+            txt += "\t".join(row[c] for c in case["cols"]) + "\n"
+        # the end of the table as users' tools leave it: a final newline, none, or an empty line after the last row
+        end = C.plumb(case, "stats-end:" + kind, 5)
+        txt = txt[:-1] if end == 0 else (txt + "\n" if end == 1 else txt)
         with open(stats[kind], "w") as f:
-            f.write(("#" if case["order"][0] % 2 else "") + "\t".join(nm(c) for c in case["cols"]) + "\n")
-            for j in rows:
-                v = case["variants"][j]
-                row = {"SNP": v["id"], "CHR": v["chrom"], "POS": str(v["pos"]), "P": v["p"], "junk": "x"}
-                f.write("\t".join(row[c] for c in case["cols"]) + "\n")
+            f.write(txt)
     order = sorted(range(len(case["variants"])), key=lambda j: ({"1": 1, "2": 2, "X": 23}[case["variants"][j]["chrom"]], case["variants"][j]["pos"]))
     samples = [f"s{i}" for i in range(len(case["gts"][0]))]
     gfile = sfile = None
@@ -282,6 +286,10 @@ def impl_clump(case):
         write_str_vcf(_dir / "tr.vcf", samples, [(case["variants"][j]["id"] if case["variants"][j]["id"] != "." else f"tr{j}", case["variants"][j]["chrom"], case["variants"][j]["pos"], ["AC", "GTT", "A"][j % 3], case["gts"][j]) for j in str_order])
         sfile = str(_dir / "tr.vcf")
     out = _dir / "out.clump"
+    if C.plumb(case, "stale-out", 3) == 0:
+        C.stale_output(out)  # a re-run into the name of an older, longer result
+    elif out.exists():
+        out.unlink()
     K.clumpstr(str(stats["SNP"]) if "SNP" in stats else None, str(stats["STR"]) if "STR" in stats else None, gfile, sfile, float(case["p1"]), float(case["p2"]), nm("SNP"), nm("P"), nm("CHR"), nm("POS"), case["kb"], case["r2"], case["ld"], str(out), SD.silent_log())
     lines = open(out).read().splitlines()
     clumps = []
